@@ -9,6 +9,8 @@ import json
 import random
 import sys
 
+import guard
+
 from labella.d3_time import d3_time
 
 EPOCH = dt.datetime(1970, 1, 1)
@@ -48,17 +50,18 @@ def call(u, op, t, k=0, t1=None, step=1):
            "out": [0, 0, 0], "outs": [], "err": ""}
     iv = d3_time[u]
     try:
-        if op == "floor":
-            rec["out"] = proj(iv.floor(t))
-        elif op == "ceil":
-            rec["out"] = proj(iv.ceil(t))
-        elif op == "round":
-            rec["out"] = proj(iv.round(t))
-        elif op == "offset":
-            rec["out"] = proj(iv.offset(t, k))
-        elif op in ("range", "wrange"):
-            rec["outs"] = [proj(x) for x in iv.range(t, t1, step)]
-    except Exception as ex:
+        with guard.limit(20):
+            if op == "floor":
+                rec["out"] = proj(iv.floor(t))
+            elif op == "ceil":
+                rec["out"] = proj(iv.ceil(t))
+            elif op == "round":
+                rec["out"] = proj(iv.round(t))
+            elif op == "offset":
+                rec["out"] = proj(iv.offset(t, k))
+            elif op in ("range", "wrange"):
+                rec["outs"] = [proj(x) for x in iv.range(t, t1, step)]
+    except Exception as ex:          # (includes guard.CallTimeout: the call did not return)
         rec["err"] = type(ex).__name__
     return rec
 
